@@ -45,7 +45,9 @@ MANIFEST = {
             'stepping is checked exhaustively for lists up to length 5; '
             'iteration-with-removal is driven through the VM.'
             ' A quarter of the random histories use names that differ onl'
-            'y by case or by a blank at either end.',
+            'y by case or by a blank at either end.'
+            ' A tenth of the random histories draw snapshots of up to 40 '
+            'lights with numbered names.',
     'note': 'Trusted: reference directory; the virtual clock replacing '
             'bardolph.controller.light.time. A light counts as seen when a '
             'successful discovery returned it; expiry is strict (> age limit).',
